@@ -144,7 +144,7 @@ func runC05(p *core.Prog, r *core.Report) {
 		if okGuard {
 			// the setState call is only reachable through an edge `prev == from` true, from being an element of the variadic list
 			var eqEdges []core.Edge
-			core.Instrs(fn, func(in ssa.Instruction) {
+			core.InstrsDeep(fn, func(in ssa.Instruction) {
 				ifi, ok := in.(*ssa.If)
 				if !ok {
 					return
@@ -197,7 +197,7 @@ func runC05(p *core.Prog, r *core.Report) {
 			var neEdges [][]core.Edge
 			for _, final := range []string{"Completed", "NoOp"} {
 				var es []core.Edge
-				core.Instrs(ms, func(in ssa.Instruction) {
+				core.InstrsDeep(ms, func(in ssa.Instruction) {
 					ifi, ok := in.(*ssa.If)
 					if !ok {
 						return
@@ -445,7 +445,7 @@ func runC05(p *core.Prog, r *core.Report) {
 		for _, w := range core.FieldWritesIn(mf, sc) {
 			// dominated by getState(unit) == Completed
 			ok := false
-			core.Instrs(mf, func(in ssa.Instruction) {
+			core.InstrsDeep(mf, func(in ssa.Instruction) {
 				ifi, isIf := in.(*ssa.If)
 				if !isIf {
 					return
@@ -485,7 +485,7 @@ func runC05(p *core.Prog, r *core.Report) {
 			kindF := core.FieldOf(p.Named(pkgStage, "Stage"), "kind")
 			kindMap := p.Const(pkgStage, "KindMap")
 			var mapEdges []core.Edge
-			core.Instrs(fn, func(in ssa.Instruction) {
+			core.InstrsDeep(fn, func(in ssa.Instruction) {
 				ifi, isIf := in.(*ssa.If)
 				if !isIf {
 					return
@@ -953,7 +953,7 @@ func checkDependencyTable(p *core.Prog, r *core.Report) {
 	}
 	// edges of the loop body on which (segment-1, i) is known Completed/NoOp
 	var prevOK []core.Edge
-	core.Instrs(fn, func(in ssa.Instruction) {
+	core.InstrsDeep(fn, func(in ssa.Instruction) {
 		ifi, ok := in.(*ssa.If)
 		if !ok || !l.Body[ifi.Block()] {
 			return
@@ -1006,7 +1006,7 @@ func checkDependencyTable(p *core.Prog, r *core.Report) {
 	r.Check(okEvery, "C05.R3", "dependenciesCompleted/every-lower-stage", "for EACH lower stage i the loop goes on (or the function answers true) only after previousUnitComplete(Unit{u.Segment, i}) held: the job loads the full store of every lower stage at its first block, so each of them must be complete up to the previous segment", fmt.Sprintf("%d tests of the previous segment of the lower stage in the loop", len(prevOK)), p.Pos(fn.Pos()))
 	// early-true
 	var stage0 []core.Edge
-	core.Instrs(fn, func(in ssa.Instruction) {
+	core.InstrsDeep(fn, func(in ssa.Instruction) {
 		ifi, ok := in.(*ssa.If)
 		if !ok || l.Body[ifi.Block()] {
 			return
@@ -1063,7 +1063,7 @@ func checkDependencyTable(p *core.Prog, r *core.Report) {
 	}
 	got := map[string]string{}
 	var defBlock *ssa.BasicBlock
-	core.Instrs(fn, func(in ssa.Instruction) {
+	core.InstrsDeep(fn, func(in ssa.Instruction) {
 		ifi, ok := in.(*ssa.If)
 		if !ok || !l.Body[ifi.Block()] {
 			return
